@@ -153,6 +153,67 @@ class C09(PropBase):
             coq_doms.append(f"(mkDom {gq} {tq} {c_list([OFF + v for v in d['policy']])} {GE.c_expr(pp)})")
         return target, domain_graphs, domain_data, "[" + "; ".join(coq_doms) + "]"
 
+    def renamed_answer(self, case, prefix):
+        """The same query with every variable V<k> called <prefix><k> (selection nodes T_<prefix><k>): (expression text, event text) with the
+        names mapped back, or the exception class - the procedure may not depend on how the variables are called."""
+        import re
+        from y0.algorithm.counterfactual_transport.api import (transport_conditional_counterfactual_query,
+                                                                transport_unconditional_counterfactual_query)
+        from y0.dsl import PP, CounterfactualVariable, Intervention, Variable
+        from y0.graph import NxMixedGraph
+        g = case["g"]
+        def N(k):
+            return Variable(f"{prefix}{k}")
+        def mk(extra_dir=()):
+            return NxMixedGraph.from_edges(nodes=[N(v) for v in g["nodes"]], directed=[(N(a), N(b)) for a, b in g["dir"]] + list(extra_dir),
+                                           undirected=[(N(a), N(b)) for a, b in g["bid"]])
+        target = mk()
+        domain_graphs, domain_data = [], []
+        for k, d in enumerate(case["domains"]):
+            gr = mk([(Variable(f"T_{prefix}{v}"), N(v)) for v in d["transport"]])
+            topo = [Variable(f"T_{prefix}{t[1]}") if isinstance(t, list) else N(t) for t in d["topo"]]
+            domain_graphs.append((gr, topo))
+            domain_data.append(({N(v) for v in d["policy"]}, PP[Variable(f"pi{k + 1}")](*[N(v) for v in g["nodes"]])))
+        def rn(name):
+            return prefix + name[1:]
+        def var(t):
+            if t["k"] == "C":
+                return CounterfactualVariable(name=rn(t["n"]), star=t["s"], interventions=frozenset(Intervention(name=rn(n), star=s_) for n, s_ in t["i"]))
+            return Variable(rn(t["n"]), star=t["s"])
+        def evl(tree):
+            return [(var(v), Intervention(name=rn(val[0]), star=val[1])) for v, val in tree]
+        try:
+            if case["kind"] == "uncond":
+                res = transport_unconditional_counterfactual_query(event=evl(case["event"]), target_domain_graph=target, domain_graphs=domain_graphs, domain_data=domain_data)
+            else:
+                res = transport_conditional_counterfactual_query(outcomes=evl(case["outcomes"]), conditions=evl(case["conditions"]), target_domain_graph=target,
+                                                                 domain_graphs=domain_graphs, domain_data=domain_data)
+        except Exception as ex:  # noqa: BLE001
+            return "exception:" + type(ex).__name__
+        if res is None:
+            return None
+        back = lambda text: re.sub(r"(?<![A-Za-z_])" + re.escape(prefix) + r"(\d)(?![A-Za-z0-9_])", r"V\1", text)   # noqa: E731
+        from y0.dsl import Distribution, Fraction, PopulationProbability, Probability, Product, Sum
+        def bv(v):            # a variable with its name (and the names in its subscripts) mapped back
+            if isinstance(v, CounterfactualVariable):
+                return CounterfactualVariable(name=back(v.name), star=v.star, interventions=frozenset(Intervention(name=back(i.name), star=i.star) for i in v.interventions))
+            if isinstance(v, Intervention):
+                return Intervention(name=back(v.name), star=v.star)
+            return Variable(back(v.name), star=v.star)
+        def be(e):
+            if isinstance(e, Probability):
+                d = Distribution(children=tuple(bv(c) for c in e.children), parents=tuple(bv(c) for c in e.parents))
+                return PopulationProbability(population=e.population, distribution=d) if isinstance(e, PopulationProbability) else Probability(d)
+            if isinstance(e, Product):
+                return Product(tuple(be(x) for x in e.expressions))
+            if isinstance(e, Sum):
+                return Sum(be(e.expression), frozenset(bv(r) for r in e.ranges))
+            if isinstance(e, Fraction):
+                return Fraction(be(e.numerator), be(e.denominator))
+            return e
+        ev = None if res.event is None else sorted((back(str(k)), back(str(v))) for k, v in res.event)
+        return be(res.expression), ev
+
     def run(self, case):
         from y0.algorithm.counterfactual_transport.api import (transport_conditional_counterfactual_query,
                                                                 transport_unconditional_counterfactual_query)
@@ -190,6 +251,20 @@ class C09(PropBase):
             violation, key = f"{case['kind']} query raised {exc} on an input that passes validation", f"C09/crash/{exc}{exc_site}"
         elif res is not None and len(g["bid"]) <= 3:
             violation, key = self.semantic(case, g, res)
+        # names: the answer may not depend on what the variables are called (in particular not on a name starting like a selection node's)
+        import zlib
+        if violation is None and zlib.crc32(repr(case).encode()) % 3 == 0:
+            from y0.mutate import canonical_expr_equal
+            other = self.renamed_answer(case, "T")
+            if exc or res is None or isinstance(other, str) or other is None:
+                same = (("exception:" + exc) if exc else None) == other if (exc or res is None) else False
+            else:
+                mine_ev = None if res.event is None else sorted((str(k), str(v)) for k, v in res.event)
+                same = mine_ev == other[1] and (other[0] == res.expression or canonical_expr_equal(other[0], res.expression))
+            if not same:
+                shown = other if isinstance(other, str) or other is None else (str(other[0]), other[1])
+                violation, key = (f"with the variables renamed V<k> -> T<k> the answer is {shown}, not "
+                                  f"{(str(res.expression), str(res.event)) if res is not None else (exc or None)}"), "C09/name-dependent"
         out_e = GE.c_expr(res.expression) if res is not None else "EOne"
         out_ev = "None" if (res is None or res.event is None) else f"(Some {c_cevent(res.event)})"
         if case["kind"] == "uncond":
